@@ -31,9 +31,9 @@ TRUSTED = ["Coq 8.16.1 kernel incl. vm_compute (no native_compute)",
 ASSUMPTIONS = ["ck_separates: hash((linenum, text)) sums differ before/after an insertion (cannot be proved of a hash; observed on every case)",
                "with auto_commit off an explicit commit follows every edit (the property's quantifier: 'off + explicit commit')"]
 TECHNIQUE = "Coq proof of the session invariant by induction over histories (commit = constructor of the text; idempotent) + vm_compute correspondence of tree and search refusal after every step, plus fresh-parse differential on the real code"
-LEVEL_TEXT = ("Theorems: after every committed step of every history the session state is the constructor applied to its own text (inv_hist), committing again changes nothing "
-              "(commit_idempotent, from the filter idempotence of C01), the forest is well-formed after every commit (commit_forest), and searches are refused exactly in dirty states, "
-              "which arise only from checkpoint-refreshing operations without auto-commit and end at the next commit (dirty_iff / search_ok_after_commit). The code is tied to this "
+LEVEL_TEXT = ("Theorems: after every committed step of every history the session state is the constructor applied to its own text (inv_hist_autocommit, step_autocommit_committed, commit_committed), committing again changes nothing "
+              "(commit_idempotent, from the filter idempotence of C01), the forest is well-formed after every commit (committed_forest), and searches are refused exactly in dirty states, "
+              "which arise only from checkpoint-refreshing operations without auto-commit and end at the next commit (search_refused_when_dirty / search_ok_after_commit / search_ok_with_autocommit). The code is tied to this "
               "after EVERY step by the property's own observation (dump vs dump of a fresh parse of get_text()) and by comparison with the model.")
 LEVEL_NOTE = ("Model-level theorems are short because commit is construct-of-text in the model; their value is that the tie checks exactly that refinement after every step. "
               "The checkpoint seat-belt is abstracted to a dirty flag under the named assumption ck_separates. Trusted: Coq kernel + vm_compute, hand models, regex oracle, driver.")
